@@ -13,6 +13,11 @@ GAS_TRACE = {"kind": "trace", "spec": "TraceGas", "module": "GasService", "quick
 ITS_TRACE = {"kind": "trace", "spec": "TraceITS", "module": "ITS", "quick": (8, 100), "thorough": (48, 400), "tlc_timeout": 3600}
 SMALL_TRACES = [dict(t, quick=(4, 120)) for t in (GW_TRACE, TOKEN_TRACE, GAS_TRACE)] + [dict(ITS_TRACE, quick=(4, 80))]
 
+SYSTEM_JOB = {"kind": "graph", "spec": "MC_System", "module": "System", "evkinds": GW_EVENTS + ITS_EVENTS,
+              "need": ["ApproveMessages/ok", "ApproveMessages/retention", "ApproveMessages/signatures", "RotateSigners/ok",
+                       "Execute/ok", "Execute/approved", "Execute/hub_chain", "DeployInterchainToken/ok"],
+              "max_len": 40}
+
 GOOD_PROOF = {"set": "s1", "sigs": ["Valid", "Valid"]}
 
 
@@ -313,11 +318,13 @@ PROPS = {
     },
     "C16": {
         "title": "Executable-interface apps act only on approved messages, exactly once",
-        "policy": {"guards": ["approved"], "fields": ["status"], "events": ["app_executed", "message_executed"], "rets": []},
+        "policy": {"guards": ["approved"], "fields": ["status", "gw.status"], "events": ["app_executed", "message_executed"], "rets": []},
         "jobs": [
             {"kind": "graph", "spec": "MC_C16", "module": "Gateway", "evkinds": GW_EVENTS + ["app_executed"],
              "need": ["AppExecute/ok", "AppExecute/approved", "ApproveMessages/ok"],
              "control": sibling_control(["app"], "key")},
+            # the token service is itself an application behind the executable interface: gateway + service composed
+            SYSTEM_JOB,
         ],
         "level_text": "TLC proves gate (effect only on an unexecuted approval naming this app, chain, id, source address and payload hash), completeness, exactly-once (the same delivery is refused in the post-state) and no effect on failure on every transition of a finite instance (all interleavings of approvals deviating in one respect each and deliveries to both apps); all transitions are executed against the shipped example contract and a minimal app using AxelarExecutableInterface::validate_message, on the real gateway.",
         "rule": "cases = transitions of the bounded TLC instance replayed against the contracts; distinct = distinct (approval-table state, action) pairs",
@@ -365,12 +372,13 @@ PROPS = {
         "policy": {"guards": ["approved", "is_receive_from_hub", "hub_chain", "hub_address", "decodes", "origin_trusted",
                               "recipient_decodes", "registered", "already_deployed", "metadata", "minter_decodes", "custody", "receiver_ok"],
                    "fields": [], "act_fields": {"Execute": ["*"], "Deliver": ["*"]},
-                   "events": ["delivery_executed", "transfer_received", "token_executed"], "rets": []},
+                   "events": ["delivery_executed", "transfer_received", "token_executed", "message_executed"], "rets": []},
         "jobs": [
             {"kind": "graph", "spec": "MC_C04", "cfg": "MC_C04_small_dev", "design_cfg": "MC_C04_small", "tiers": ["quick"], "module": "ITS", "evkinds": ITS_EVENTS,
              "need": C04_NEED, "control": conforming_delivery_control, "quick_edges": 12000, "max_len": 40, "workers": 16},
             {"kind": "graph", "spec": "MC_C04", "cfg": "MC_C04_full_dev", "design_cfg": "MC_C04_full", "tiers": ["thorough"], "module": "ITS", "evkinds": ITS_EVENTS,
              "need": C04_NEED, "control": conforming_delivery_control, "max_len": 40, "workers": 16, "tlc_timeout": 3600},
+            dict(SYSTEM_JOB, tiers=["thorough"]),
             ITS_TRACE,
         ],
         "level_text": "TLC proves gate (every guard held in the pre-state of an executed delivery), exactly-once, 'rejected deliveries leave balances, registrations and the approval record untouched' and acceptance of conforming deliveries on every transition of a finite instance containing one conforming delivery of each kind and every single deviation the statement lists (approval-table deviations under tracked ids, payload / chain / address deviations under fresh ids), over trusted-chain histories; whether a mutated payload decodes is decided by Abi!Decode.  All transitions are executed against the real service, gateway, tokens and receiver contracts, with payload bytes built by the harness's own encoder.",
